@@ -892,6 +892,13 @@ def judge_wf(ctx, cfg, svals):
     io, mo = ctx.both(cfg, lines, impl_name=IMPL, model_name=MODEL)
     viol = []
     xo = ctx.impl(cfg, xlines, IMPL)
+    # the same lines through the extracted writer MACHINE (Model/WriterMachine.v = the harness's ChunkWriter, proved an instance of the general oracle)
+    xm = ctx.model(xlines, 'sjdriver_wgen') if ctx.model_ok and os.path.exists(os.path.join(engine.VERIF, 'ocaml', 'sjdriver_wgen')) else [None] * len(xlines)
+    for line, a, m in zip(xlines, xo, xm):
+        if m is not None and a != m:
+            f = line.split(' ')
+            viol.append({'what': 'writer-machine-run-differs-from-model', 'cfg': cfg, 'input': hx(f[7].encode()), 'expected': 'model: ' + m[:300], 'actual': a[:300], 'shrinkable': False,
+                         'aux': {'op': 'wf', 'fmt': f[2], 'k': f[4], 'kind': f[5], 'chunking': f[6]}, 'case': line})
     for (s, out, final, mode, k, kind), line, a in zip(xmeta, xlines, xo):
         def xbad(what, expected, actual):
             f = line.split(' ')
